@@ -816,6 +816,9 @@ class Interp:
             raise AnalysisError(f"inlining depth exceeded at {fn.qual}")
         memo = getattr(fn, "memo", None)
         if memo is not None:
+            # the memo lives in the heap (under a key of its own), so that snapshots, joins and restores treat the containers it
+            # hands out like any other shared state: a local name bound to a memoised dictionary stays an alias of it
+            memo = self.heap.setdefault(("memo", fn.qual), memo if isinstance(memo, dict) else {})
             # functools.lru_cache / cache: one result object per distinct argument tuple
             def hk(v):
                 if isinstance(v, (list, dict, set)):
@@ -830,8 +833,8 @@ class Interp:
             try:
                 r = self.call_closure(fn, args, kwargs)
             finally:
-                fn.memo = memo
-            memo[key] = r
+                fn.memo = {}
+            self.heap.setdefault(("memo", fn.qual), {})[key] = r      # (the heap may have been replaced by a copy meanwhile)
             return r
         node = fn.node
         frame = Frame(self, fn.module, fn.qual, parent=fn.frame, cls=fn.cls)
